@@ -52,7 +52,7 @@ func shareLayouts(tier string) []nodeLayout {
 func shareScenarios(tier string) []clustermc.Scenario {
 	menu := shareMenu()
 	var out []clustermc.Scenario
-	cfgs := []schedrun.Config{{}, {Placement: "spread"}}
+	cfgs := []schedrun.Config{{}, {Placement: "spread", ConsolidatingReclaim: true}}
 	for _, lay := range shareLayouts(tier) {
 		picks := multisetsUpTo(len(menu), 3)
 		if tier == "thorough" {
@@ -125,7 +125,7 @@ func shareGangFaultScenarios(tier string) []clustermc.Scenario {
 			for _, i := range pick {
 				tags += menu[i].tag + ","
 			}
-			out = append(out, clustermc.Scenario{Name: "gangfault:" + lay.tag + ":" + tags, World: buildMenuWorld(lay, menu, pick), Configs: []schedrun.Config{{}, {Placement: "spread"}}, Variant: variant})
+			out = append(out, clustermc.Scenario{Name: "gangfault:" + lay.tag + ":" + tags, World: buildMenuWorld(lay, menu, pick), Configs: []schedrun.Config{{}, {Placement: "spread", ConsolidatingReclaim: true}}, Variant: variant})
 		}
 	}
 	return out
@@ -170,7 +170,7 @@ func pinnedGangShareScenarios(tier string) []clustermc.Scenario {
 					b.Workload(wl)
 					tags += it.tag + ","
 				}
-				out = append(out, clustermc.Scenario{Name: fmt.Sprintf("pinned-gang:n1=%dgpu,term=%v:order%d:%s", n1gpus, n1term, oi, tags), World: b.Done(), Configs: []schedrun.Config{{}, {Placement: "spread"}}})
+				out = append(out, clustermc.Scenario{Name: fmt.Sprintf("pinned-gang:n1=%dgpu,term=%v:order%d:%s", n1gpus, n1term, oi, tags), World: b.Done(), Configs: []schedrun.Config{{}, {Placement: "spread", ConsolidatingReclaim: true}}})
 			}
 		}
 	}
